@@ -63,7 +63,7 @@ def gen_case(rng, quick=True, drivers=False):
     d = [rng.randint(-3, 3) for _ in range(m)]
     return dict(n=n, m=m, shape=shape, rank=rank, noise=noise, R=[[rs(x) for x in r] for r in R],
                 N=[[rs(x) for x in r] for r in N], d=[rs(x) for x in d], drivers=drivers,
-                seed=rng.randint(0, 2 ** 31 - 1), dict_domain=rng.random() < 0.3)
+                seed=rng.randint(0, 2 ** 31 - 1), dict_domain=(n >= 2 and rng.random() < 0.3))
 
 
 def _np(c):
